@@ -310,18 +310,19 @@ impl El for Zd {
 }
 
 // ---------------------------------------------------------------------------------------------
-// A large, over-aligned element: 192 bytes at 64-byte alignment, padded with a pattern derived
-// from the id so that a partial copy, a misaligned slot or a mixed-up element is noticed when read.
+// A large, over-aligned element: 1 KiB at 64-byte alignment (a map slot is 2 KiB), padded with a
+// pattern derived from the id so that a partial copy, a misaligned slot or a mixed-up element is
+// noticed when read.
 
 #[repr(C, align(64))]
 pub struct Big {
     id: u32,
-    pad: [u32; 40],
+    pad: [u32; 250],
     tail: u32,
 }
 impl Big {
     fn make(id: u32) -> Big {
-        let mut pad = [0u32; 40];
+        let mut pad = [0u32; 250];
         for (i, p) in pad.iter_mut().enumerate() {
             *p = id.wrapping_mul(0x9E37_79B9).wrapping_add(i as u32);
         }
